@@ -196,6 +196,60 @@ class Targeted(Strategy):
         return others[sim.rng.randrange(len(others))]
 
 
+class LazyInit(Strategy):
+    """Park a thread on a line inside a lazy-initialisation body (sites found statically in
+    the tree under test, dst/c20/sites.py) and let the others run for a long time: the
+    schedule shape behind atomicity violations of check-then-act code.  Per run only a
+    random subset of the sites is enabled (swarm), each firing with probability q; a parked
+    thread is released when nothing else can run, or early with a small probability."""
+
+    name = "lazyinit"
+
+    def __init__(self, q: float, frac: float, sites):
+        self.q = q
+        self.frac = frac
+        self.all_sites = sites
+        self.sites = frozenset()
+        self.parked = set()
+
+    def params(self):
+        return [self.q, self.frac]
+
+    def start(self, sim):
+        ordered = sorted(self.all_sites)
+        self.sites = frozenset(x for x in ordered if sim.rng.random() < self.frac)
+        self.parked = set()
+
+    def _others(self, sim):
+        return [t for t in sim.threads if t is not sim.current and sim.is_runnable(t) and t.idx not in self.parked]
+
+    def decide(self, sim, event, frame):
+        if self.parked and sim.rng.random() < 0.0005:
+            cand = [t for t in sim.threads if t.idx in self.parked and sim.is_runnable(t) and t is not sim.current]
+            if cand:
+                t = cand[sim.rng.randrange(len(cand))]
+                self.parked.discard(t.idx)
+                return t
+        if event != "line":
+            return None
+        if (frame.f_code.co_filename, frame.f_lineno) not in self.sites:
+            return None
+        if sim.rng.random() >= self.q:
+            return None
+        others = self._others(sim)
+        if not others:
+            return None
+        self.parked.add(sim.current.idx)
+        return others[sim.rng.randrange(len(others))]
+
+    def pick(self, sim, runnable):
+        free = [t for t in runnable if t.idx not in self.parked]
+        if not free:
+            self.parked.clear()
+            free = runnable
+        return free[sim.rng.randrange(len(free))]
+
+
 class Scripted(Strategy):
     """Follow a recorded schedule: list of [step, kind, frm, to, site]."""
 
@@ -234,6 +288,9 @@ class Scripted(Strategy):
         return min(runnable, key=lambda t: t.idx)
 
 
+_SITES = None
+
+
 def make_strategy(spec: Sequence) -> Strategy:
     kind = spec[0]
     if kind == "uniform":
@@ -242,6 +299,15 @@ def make_strategy(spec: Sequence) -> Strategy:
         return PCT(spec[1], spec[2])
     if kind == "targeted":
         return Targeted(spec[1])
+    if kind == "lazyinit":
+        from dst.c20 import sites as _sites
+
+        global _SITES
+        if _SITES is None:
+            from dst import boot
+
+            _SITES = _sites.as_set(_sites.scan(boot.apischema_dir()))
+        return LazyInit(spec[1], spec[2], _SITES)
     if kind == "nopreempt":
         return NoPreempt()
     if kind == "scripted":
